@@ -1,4 +1,4 @@
-use std::collections::{BTreeMap, HashMap, HashSet};
+use std::collections::{BTreeMap, BTreeSet, HashMap};
 use std::path::Path;
 
 use serde::Deserialize;
@@ -98,9 +98,11 @@ fn make_unique_group_name(name: Name, existing_groups: &Groups) -> Name {
     new_name
 }
 
-fn find_known_kerning_groups(groups: &Groups) -> (HashSet<Name>, HashSet<Name>) {
-    let mut groups_first: HashSet<Name> = HashSet::new();
-    let mut groups_second: HashSet<Name> = HashSet::new();
+fn find_known_kerning_groups(groups: &Groups) -> (BTreeSet<Name>, BTreeSet<Name>) {
+    // Ordered sets: the groups are visited in sorted order below, so that the numeric suffixes
+    // handed out by `make_unique_group_name` do not depend on the hasher's iteration order.
+    let mut groups_first: BTreeSet<Name> = BTreeSet::new();
+    let mut groups_second: BTreeSet<Name> = BTreeSet::new();
 
     for name in groups.keys() {
         if name.starts_with("@MMK_L_") {
